@@ -95,7 +95,12 @@ def check_plumb(cx, chk):
 
 
 def check_wrap(cx, chk):
-    """Rule wrappers: struct built by name identity from the body's value; overrides returned unchanged."""
+    """Rule wrappers: struct built by name identity from the body's value; overrides returned unchanged - read off the
+    semantic summary of every wrapper (wrapsem.RuleView): on every path that evaluates the body successfully, the value that is
+    returned / stored is ParseOk{result: Rule{f: body.result.f ..}, state: body.state}."""
+    from . import wrapsem
+    from .. import sem
+    views = wrapsem.rule_views(cx)
     n = 0
     for inst in cx.instances():
         g = cx.grammar_of(inst)
@@ -104,82 +109,60 @@ def check_wrap(cx, chk):
         for r in g.rules:
             if r.kind != "rule":
                 continue
-            pfn = inst.rule_fns.get(r.name)
-            if pfn is None:
+            v = views.get((inst.name, r.name))
+            if v is None or v.path is None:
                 continue
             tag = "%s/%s" % (inst.name, r.name)
-            impl = inst.prefix + "::" + r.name + "_impl::parse"
-            # find the closure that calls the body
-            cands = [pfn] + sorted(inst.closures_of(pfn))
-            body_b = None
-            for q in cands:
-                bq = cx.body(inst.crate, q)
-                if bq is None:
-                    continue
-                if any(not t["func"].get("indirect") and mir.strip_generics(t["func"]["path"]) == impl for _, t in bq.calls()):
-                    body_b = bq
-            if body_b is None:
-                chk.violation("C02.wrap", tag + " no-body-call", "wrapper of rule %s never evaluates its body" % r.name)
+            if v.sm is None:
+                chk.violation("C02.wrap", tag + " unsummarised", "wrapper of rule %s: %s" % (r.name, v.problem), cx.site(v.body))
                 continue
-            b = body_b
+            pairs = []
+            for leaf in v.leaves:
+                pairs.extend(v.mapped(leaf))
+            if not pairs:
+                chk.violation("C02.wrap", tag + " no-body-call", "wrapper of rule %s never evaluates its body successfully into a result" % r.name, cx.site(v.body))
+                continue
             n += 1
-            oks = [norm(b.expr_rv(d[3])) for d in b.defs.get(0, []) if d[2] == "rv" and norm(b.expr_rv(d[3]))[0] == "agg" and norm(b.expr_rv(d[3]))[2] == "Ok"]
-            if len(oks) != 1:
-                chk.violation("C02.wrap", tag + " returns", "wrapper body has %d success returns" % len(oks), cx.site(b))
-                continue
-            val = oks[0][3][0][1]
-            # the body application's Ok payload
-            okp = None
-            for s_ in walk(val):
-                pl = lift.ok_payload_of(s_) if isinstance(s_, mir.E) else None
-                if pl is not None and any(x[0] == "call" and mir.strip_generics(x[1]) == impl for x in walk(pl)):
-                    okp = s_
-            if okp is None:
-                chk.violation("C02.wrap", tag + " value-source", "the value returned by the wrapper does not derive from the body's Ok payload: %s" % mir.show(val)[:160], cx.site(b))
-                continue
             try:
                 fs = ebnf.fields_of(r.body, g)
             except ebnf.Reject:
                 continue
             names = [f.name for f in fs]
-            if "string" in r.flags:
-                continue        # value is the consumed slice (C09.pair)
-            if len(names) == 1 and names[0] == "_override":
-                if val == okp:
-                    chk.ok("C02.wrap", tag, {"rule": tag, "kind": "override", "returns": "the body's value unchanged"})
-                else:
-                    chk.violation("C02.wrap", tag + " override-remapped", "an override rule does not return the overridden value itself: %s" % mir.show(val)[:200], cx.site(b))
-                continue
-            # normal rule: map / map_with_state(okp, closure) building the struct
-            if not (is_call(val, "map", "map_with_state") and val[2][0] == okp and val[2][1][0] == "closure"):
-                chk.violation("C02.wrap", tag + " shape", "normal rule wrapper is not body_ok.map(|r| Rule{..}): %s" % mir.show(val)[:200], cx.site(b))
-                continue
-            cb = cx.body(inst.crate, val[2][1][1])
-            ds = cb.defs.get(0, [])
-            e = norm(cb.expr_rv(ds[0][3])) if len(ds) == 1 and ds[0][2] == "rv" else None
-            if e is None or e[0] != "agg":
-                chk.violation("C02.wrap", tag + " struct", "rule struct is not built by a plain aggregate", cx.site(cb))
-                continue
             probs = []
-            got_names = []
-            for (fn_, v) in e[3]:
-                fn_ = fn_.replace("r#", "")
-                if fn_ == "position":
+            for (R, X) in pairs:
+                pay = mir.mk("field", mir.mk("downcast", R, "Ok"), "0")
+                body_res, body_st = mir.mk("field", pay, "result"), mir.mk("field", pay, "state")
+                val, st = sem.get_field(X, "result"), sem.get_field(X, "state")
+                if st != body_st:
+                    probs.append(("state", "the wrapper's result resumes from %s, not from the state the body ended in" % mir.show(st)[:100]))
+                if "string" in r.flags:
+                    continue        # value is the consumed slice (C09.pair)
+                if names == ["_override"]:
+                    if val != body_res:
+                        probs.append(("override-remapped", "an override rule does not return the overridden value itself: %s" % mir.show(val)[:200]))
                     continue
-                got_names.append(fn_)
-                if len(names) == 1:
-                    if v != ("param", 2):
-                        probs.append("field %s is fed by %s, not by the body's single value" % (fn_, mir.show(v)[:60]))
-                else:
-                    if not (v[0] == "field" and v[1] == ("param", 2) and v[2].replace("r#", "") == fn_):
-                        probs.append("field %s is fed by %s, not by the body's component of the same name" % (fn_, mir.show(v)[:60]))
-            if got_names != names:
-                probs.append("struct fields %s differ from the rule's fields %s" % (got_names, names))
+                if val[0] != "agg":
+                    probs.append(("shape", "normal rule wrapper does not build the rule struct from the body's value: %s" % mir.show(val)[:200]))
+                    continue
+                got_names = []
+                for (fn_, fv) in val[3]:
+                    fn_ = fn_.replace("r#", "")
+                    if fn_ == "position":
+                        continue
+                    got_names.append(fn_)
+                    if len(names) == 1:
+                        if fv != body_res:
+                            probs.append((fn_, "field %s is fed by %s, not by the body's single value" % (fn_, mir.show(fv)[:60])))
+                    else:
+                        if not (fv[0] == "field" and fv[1] == body_res and fv[2].replace("r#", "") == fn_):
+                            probs.append((fn_, "field %s is fed by %s, not by the body's component of the same name" % (fn_, mir.show(fv)[:60])))
+                if got_names != names:
+                    probs.append(("fields", "struct fields %s differ from the rule's fields %s" % (got_names, names)))
             if probs:
-                for pr in probs:
-                    chk.violation("C02.wrap", "%s %s" % (tag, pr.split(" is fed")[0][:50]), pr, cx.site(cb))
+                for (k, pr) in sorted(set(probs)):
+                    chk.violation("C02.wrap", "%s %s" % (tag, k[:50]), pr, cx.site(v.body))
             else:
-                chk.ok("C02.wrap", tag, {"rule": tag, "kind": "struct", "fields": names})
+                chk.ok("C02.wrap", tag, {"rule": tag, "kind": "override" if names == ["_override"] else ("string" if "string" in r.flags else "struct"), "fields": names, "paths": len(pairs)})
     chk.floor("C02.wrap", "rule wrappers examined", n, 1134)
 
 
